@@ -25,6 +25,8 @@ where
     let length = cur_loc + 1;
     let mut exec_count = 0;
     while cur_loc < length {
+        #[cfg(hyeong_verif)]
+        crate::util::verif::tick("opt_execute");
         if exec_count >= 100 {
             return Ok((state_clone, false));
         }
